@@ -53,6 +53,12 @@ CLAIMED = {
  "C17": ("explicit TLA+ model of project layouts (Layout.tla) + TLC model checking (BFS exhaustive small scope, -simulate beyond) as a generator of annotated configurations; black-box conformance replay against the server binary over LSP",
          "TLC enumerates all Layout configurations of a small scope and simulates larger ones (up to 4 packages: root, registry and path dependencies, nested module directories, equal module names, free-standing file, open orders), checking on the model that Resolve is a function into own + direct dependencies, RootOf is the unique longest-prefix root and ModuleName is injective per package; every configuration is materialised on disk and every import use site / rename gate / free-file query is compared with the specification's prediction through the real server (definition targets, prepareRename, rename edit locality).",
          "oracle compares files, not offsets; unresolved imports may answer null or error; two genuine defects recorded as known findings (see known_findings.d/C17.json)", "4 C17, 3.10"),
+ "C09": ("TLA+ type-directed generator (Typing.tla: Gleam's typing rules read goal-first over a small type universe), checked by TLC; every generated program replayed into the real inference (hover on every binder and function name)",
+         "every expression is derived against a chosen monomorphic goal type so the type of each let-bound variable, pattern variable, parameter and function is known by construction; signatures of the generated functions are fixed up front so calls refer forwards, backwards and recursively, D0 results and pinned parameters are left unannotated and must be inferred; TLC enumerates one function per representative goal type x every rule (BFS) and simulates three-function modules; programs are rendered with the functions in a seeded order, prelude before or after, and the displayed type of every binder/function is compared with the specification's (type variables renamed by first occurrence).",
+         "typing rules are a transcription (no Gleam compiler in the sandbox); constructs that leave a type variable open ([] / Ok / Error alone, unpinned lambdas) are generated only where the context pins them; rules that trigger recorded findings are masked in the main run and re-enabled one at a time", "4 C09, 3.4"),
+ "C12": ("TLA+ model of salsa's snapshot/cancellation protocol as used by ide::AnalysisHost (Host.tla) model-checked by TLC for safety and liveness; multi-threaded harness (hostrace) on the real ide crate; recorded traces validated against Host by TLC (Trace_Host.tla) together with reference answers of a fresh analysis",
+         "TLC proves on Host.tla, exhaustively and without state constraint for 2 readers x 2 changes x 2 files x 2 queries per snapshot, that every answer is the answer for the snapshot's own version or Cancelled, that no read is torn, that a live snapshot always has the current completed version, and - under weak fairness - that every apply_change returns; both are refuted when the exclusivity of apply_change resp. the flag check is switched off. 300 (quick) / 5000 (thorough) seeded races of one writer against 1-4 readers (9 query kinds) on the real AnalysisHost are recorded with a global sequence number and each accepted by TLC as a behaviour of Host in which every Ok(hash) equals the hash a fresh single-threaded analysis gives for the snapshot's version and every apply_change returned within 30 s.",
+         "interleavings of the real code are sampled (seeded delays + OS scheduler), exhaustive only in the model; answers compared as hashes of Debug renderings (lists as sets)", "4 C12, 3.8, App. B"),
 }
 NOT_YET = "check not built yet in this revision of /verif (work in progress; see DESIGN.md section 8)"
 
